@@ -85,13 +85,20 @@ Init == /\ mol \in Mols /\ fud \in Fudges
         /\ pos = [a \in AtomsOf(mol) |-> Zero]
         /\ last = [op |-> "init", r |-> 0]
 
-Skip == /\ placed < Len(mol) /\ ~mol[placed + 1].bm
-        /\ placed' = placed + 1
-        /\ UNCHANGED <<mol, fud, done, built, pos>>
+\* protocol part of the two steps (shared with the trace specification BmTrace, where coordinates are real-valued)
+SkipProto == /\ placed < Len(mol) /\ ~mol[placed + 1].bm
+             /\ placed' = placed + 1
+             /\ UNCHANGED <<mol, fud, done, built>>
+PlaceProto == /\ placed < Len(mol) /\ mol[placed + 1].bm
+              /\ placed' = placed + 1 /\ done' = done \cup {placed + 1} /\ built' = Append(built, placed + 1)
+              /\ UNCHANGED <<mol, fud>>
+
+Skip == /\ SkipProto
+        /\ pos' = pos
         /\ last' = [op |-> "skip", r |-> placed + 1]
 
 Place(k) ==
-  /\ placed < Len(mol) /\ mol[placed + 1].bm
+  /\ PlaceProto
   /\ LET r    == placed + 1
          ty   == mol[r].type
          tyT  == IF DevOtherTemplate /\ NameSet(mol[1].type) = NameSet(ty) THEN mol[1].type ELSE ty
@@ -102,9 +109,7 @@ Place(k) ==
      IN /\ pos' = [a \in DOMAIN pos |-> IF a[1] = r
                                         THEN VAdd(VScale(Den, c), VScale(p, MatVec(RA(a[2]), TN(tyT, a[2]))))
                                         ELSE pos[a]]
-        /\ placed' = r /\ done' = done \cup {r} /\ built' = Append(built, r)
         /\ last' = [op |-> "place", r |-> r]
-  /\ UNCHANGED <<mol, fud>>
 
 Next == Skip \/ \E k \in Angles : Place(k)
 Spec == Init /\ [][Next]_vars
@@ -113,7 +118,7 @@ Spec == Init /\ [][Next]_vars
 (* P-layer                                                            *)
 (* ------------------------------------------------------------------ *)
 Trits == {-1, 0, 1}
-\* orthogonal integer matrices = signed permutation matrices (MC_Backmap checks this against brute force over all 3^9 matrices)
+\* orthogonal integer matrices = signed permutation matrices (BmRotLaws checks this against brute force over all 3^9 matrices)
 Perms3 == { <<1, 2, 3>>, <<1, 3, 2>>, <<2, 1, 3>>, <<2, 3, 1>>, <<3, 1, 2>>, <<3, 2, 1>> }
 SignedPerm(s, sg) == << <<(IF s[1] = 1 THEN sg[1] ELSE 0), (IF s[1] = 2 THEN sg[1] ELSE 0), (IF s[1] = 3 THEN sg[1] ELSE 0)>>,
                         <<(IF s[2] = 1 THEN sg[2] ELSE 0), (IF s[2] = 2 THEN sg[2] ELSE 0), (IF s[2] = 3 THEN sg[2] ELSE 0)>>,
